@@ -48,7 +48,11 @@ pub fn run(run: &mut Run) {
         let tape: Vec<u32> = (0..700).map(|_| r.next() as u32).collect();
         let mut t = Tape::new(&tape);
         let s = build_sprite(&mut t, &cfg());
-        let plan = build_plan(&mut t);
+        let mut plan = build_plan(&mut t);
+        if i % 9 == 4 {
+            // a frame with several hundred chunks (bulk paths)
+            plan.pad_to = ((s.frames.len() - 1) as u32, 256 + (i as u32 % 7) * 40);
+        }
         let e = encode(&s, &plan);
         let l = e.last_frame_end();
         let bounds: Vec<usize> = e.chunks.iter().flat_map(|c| [c.start, c.end]).chain(e.frame_starts.iter().copied()).collect();
